@@ -14,7 +14,7 @@ RECURSIVE PickN(_, _, _)
 PickN(S, n, k) == IF n = 0 \/ S = {} THEN <<>>
                   ELSE LET x == Pick(S, R(k)) IN <<x>> \o PickN(S \ {x}, n - 1, k + 1)
 Blank == [kind |-> "", name |-> "", srcs |-> <<>>, libs |-> <<>>, ins |-> <<>>, nouts |-> 1,
-          always |-> FALSE, deps |-> <<>>, dist |-> TRUE, pch |-> FALSE]
+          always |-> FALSE, deps |-> <<>>, dist |-> TRUE, pch |-> FALSE, xdeps |-> <<>>, hdr |-> FALSE]
 MkSrcs(P, k) ==
   LET fs == PickN({"s1", "s2", "s3"}, 1 + Below(R(k), 2), k + 1)
       gens == Kinds(P, {"step"})
@@ -33,16 +33,19 @@ MkDecl(P, i) ==
       exe0 == [Blank EXCEPT !.kind = "exe", !.name = nm, !.srcs = MkSrcs(P, 10),
                             !.libs = PickN(libsA, Below(R(2), 3), 20), !.ins = hdrs]
       \* pch='<header name>' makes bfg9000 create one pch step per object: only with a single source
-      exe == [exe0 EXCEPT !.pch = (Len(exe0.srcs) = 1 /\ Below(R(11), IF hdrs # <<>> THEN 4 ELSE 16) < 3)] IN
+      xd == IF filesT # {} /\ Below(R(12), 5) = 0 THEN PickN(filesT, 1, 45) ELSE <<>>
+      exe == [exe0 EXCEPT !.xdeps = xd, !.hdr = (Below(R(13), 5) = 0), !.pch = (Len(exe0.srcs) = 1 /\ Below(R(11), IF hdrs # <<>> THEN 4 ELSE 16) < 3)] IN
   IF c <= 3 THEN exe
   ELSE IF c <= 6 THEN [Blank EXCEPT !.kind = (IF c = 6 THEN "shlib" ELSE "slib"), !.name = nm, !.srcs = MkSrcs(P, 10),
-                                    !.libs = PickN(libsA, Below(R(2), 2), 20), !.ins = hdrs]
+                                    !.libs = PickN(libsA, Below(R(2), 2), 20), !.ins = hdrs, !.xdeps = xd,
+                                    !.hdr = (Below(R(13), 6) = 0)]
   ELSE IF c <= 8 THEN
        LET fins == PickN({"d1", "s3"}, Below(R(3), 2), 30)
            tins == PickN(filesT, IF fins = <<>> THEN 1 ELSE Below(R(4), 2), 35)
            ins == [j \in 1..Len(fins) |-> F(fins[j])] \o [j \in 1..Len(tins) |-> T(tins[j])] IN
        [Blank EXCEPT !.kind = "step", !.name = nm, !.ins = IF ins = <<>> THEN <<F("d1")>> ELSE ins,
-                     !.nouts = 1 + Below(R(5), 2), !.always = (Below(R(6), 5) = 0)]
+                     !.nouts = 1 + Below(R(5), 2), !.always = (Below(R(6), 5) = 0),
+                     !.xdeps = IF Below(R(12), 4) = 0 THEN PickN(filesT \ {tins[j] : j \in 1..Len(tins)}, 1, 45) ELSE <<>>]
   ELSE IF c = 9 THEN
        (IF {"d1", "s3"} \ copied = {} THEN exe
         ELSE [Blank EXCEPT !.kind = "copy", !.name = nm, !.ins = <<F(Pick({"d1", "s3"} \ copied, R(7)))>>,
